@@ -13,10 +13,10 @@ SPEC = dict(
     engines=[dict(name="totality", shards=T(16, 16), timeout=T(1200, 7200))],
     rule="case = one generated file (then 8-10 (query, options) pairs x 10 entry points on the loaded database); non-trivial = a well-formed list whose "
          "expected entries are known to the generator and were compared; distinct by file content.",
-    floors=T({"files-wellformed-block": 150, "files-wellformed-flow": 150, "files-wrong-shape": 150, "files-damaged": 150, "files-mutated": 150,
+    floors=T({"files-wellformed-block": 150, "files-wellformed-flow": 150, "files-wellformed-utf16": 100, "files-wrong-shape": 150, "files-damaged": 150, "files-mutated": 150,
               "files-random-bytes": 150, "files-deep": 30, "load-ok": 1000, "load-error": 500, "calls-SearchUniversal": 8000,
               "calls-RecoverFromSearchFailure": 8000, "distinct_nontrivial": 500},
-             {"files-wellformed-block": 1500, "files-wellformed-flow": 1500, "files-wrong-shape": 1500, "files-damaged": 1500, "files-mutated": 1500,
+             {"files-wellformed-block": 1500, "files-wellformed-flow": 1500, "files-wellformed-utf16": 1000, "files-wrong-shape": 1500, "files-damaged": 1500, "files-mutated": 1500,
               "files-random-bytes": 1500, "files-deep": 300, "load-ok": 10000, "load-error": 5000, "calls-SearchUniversal": 80000,
               "calls-RecoverFromSearchFailure": 80000, "distinct_nontrivial": 5000}),
     assumptions=["'not-found' / 'parse error' are recognised by the message class of errors.NewDatabaseNotFoundError / NewDatabaseParseError",
